@@ -152,6 +152,14 @@ def rule_R2(chk, repo, eng):
                 if isinstance(node.iter, (ast.Tuple, ast.List)):
                     vals = sorted(ts.literal_int(x) for x in node.iter.elts if ts.literal_int(x) is not None)
                 ok = vals == [0, 1] and len(node.iter.elts) == 2
+                if not ok and norm(node.iter) == 'range(2)':
+                    ok = True
+                if not ok and isinstance(node.iter, ast.Call) and norm(node.iter.func) == 'range' and len(node.iter.args) == 1 and \
+                        norm(node.iter.args[0]).startswith('len(') and norm(node.iter.args[0]).endswith('.nids)'):
+                    # one pass per end point of an edge: the edge constructor admits exactly two node ids
+                    ctor = repo.func('opgraph.OpGraphEdge.__init__')
+                    ok = any(isinstance(t, ast.If) and norm(t.test) in ('len(nids) != 2', 'not len(nids) == 2') and
+                             any(isinstance(x, ast.Raise) for x in t.body) for t in ast.walk(ctor.node))
                 chk.ob(rid, where(repo, fi, node), f'{fi.name}: loop over `direction` covers (0, 1)', ok,
                        norm(node.iter), key=f'{rid}|{fi.qual}|dirloop|{norm(node.iter)}|{node.lineno - fi.node.lineno}')
                 n += 1
@@ -431,19 +439,142 @@ def rule_R5(chk, repo):
     chk.floor(rid, 3, 3)
 
 
-def rule_R6(chk, repo, rid='C16.R6', q='opgraph.OpGraphEdge.add'):
+def _dict_accumulation(fi, loops):
+    """The dict idiom of the coefficient sum: `D = {} | dict(self.opics)`, one loop over the incoming pairs whose body is
+    straight-line code with membership tests, and `self.opics = sorted(D.items())`.  The body is executed symbolically for
+    one pair (i, c) from both abstract pre-states (id absent / present with value d); afterwards D[i] must be c resp. c + d.
+    Returns (ok, detail, node), or None if the function does not use the idiom."""
+    from collections import Counter
+    fin = [s for s in fi.node.body if isinstance(s, ast.Assign) and norm(s.targets[0]) == 'self.opics' and
+           isinstance(s.value, ast.Call) and norm(s.value.func) == 'sorted' and len(s.value.args) == 1 and
+           isinstance(s.value.args[0], ast.Call) and isinstance(s.value.args[0].func, ast.Attribute) and
+           s.value.args[0].func.attr == 'items' and isinstance(s.value.args[0].func.value, ast.Name)]
+    if len(fin) != 1 or len(loops) != 1:
+        return None
+    D = fin[0].value.args[0].func.value.id
+    loop = loops[0]
+    init = [s for s in fi.node.body if isinstance(s, ast.Assign) and norm(s.targets[0]) == D and s.lineno < loop.lineno]
+    if len(init) != 1 or norm(init[0].value) not in ('{}', 'dict()', 'dict(self.opics)'):
+        return None
+    if not (isinstance(loop.target, ast.Tuple) and len(loop.target.elts) == 2 and all(isinstance(x, ast.Name) for x in loop.target.elts)):
+        return None
+    I, C = (x.id for x in loop.target.elts)
+
+    class Unknown(Exception):
+        pass
+
+    def run(present):
+        st = {'present': present, 'val': Counter({'d': 1}) if present else None}
+        env = {C: Counter({'c': 1})}
+
+        def is_key(e):
+            return isinstance(e, ast.Name) and e.id == I
+
+        def ev(e):
+            if isinstance(e, ast.Constant) and e.value in (0, 0.0):
+                return Counter()
+            if isinstance(e, ast.Name):
+                if e.id in env:
+                    return Counter(env[e.id])
+                raise Unknown(norm(e))
+            if isinstance(e, ast.BinOp) and isinstance(e.op, ast.Add):
+                return ev(e.left) + ev(e.right)
+            if isinstance(e, ast.Subscript) and isinstance(e.value, ast.Name) and e.value.id == D and is_key(e.slice):
+                if not st['present']:
+                    raise Unknown('read of an absent key')
+                return Counter(st['val'])
+            if isinstance(e, ast.Call) and isinstance(e.func, ast.Attribute) and isinstance(e.func.value, ast.Name) and \
+                    e.func.value.id == D and e.args and is_key(e.args[0]):
+                if e.func.attr == 'get' and len(e.args) == 2:
+                    return Counter(st['val']) if st['present'] else ev(e.args[1])
+                if e.func.attr == 'pop':
+                    if st['present']:
+                        v = Counter(st['val'])
+                        st['present'], st['val'] = False, None
+                        return v
+                    if len(e.args) == 2:
+                        return ev(e.args[1])
+                    raise Unknown('pop of an absent key')
+            raise Unknown(norm(e)[:50])
+
+        def test(t):
+            if isinstance(t, ast.UnaryOp) and isinstance(t.op, ast.Not):
+                return not test(t.operand)
+            if isinstance(t, ast.Compare) and len(t.ops) == 1 and is_key(t.left) and norm(t.comparators[0]) == D:
+                if isinstance(t.ops[0], ast.In):
+                    return st['present']
+                if isinstance(t.ops[0], ast.NotIn):
+                    return not st['present']
+            raise Unknown(norm(t)[:50])
+
+        def block(stmts):
+            for s_ in stmts:
+                if isinstance(s_, ast.Expr) and isinstance(s_.value, ast.Constant):
+                    continue
+                if isinstance(s_, ast.Assert):
+                    continue
+                if isinstance(s_, ast.If):
+                    block(s_.body if test(s_.test) else s_.orelse)
+                elif isinstance(s_, ast.Assign) and len(s_.targets) == 1 and isinstance(s_.targets[0], ast.Name):
+                    env[s_.targets[0].id] = ev(s_.value)
+                elif isinstance(s_, ast.AugAssign) and isinstance(s_.op, ast.Add) and isinstance(s_.target, ast.Name):
+                    env[s_.target.id] = ev(ast.Name(s_.target.id, ast.Load())) + ev(s_.value)
+                elif isinstance(s_, ast.Assign) and len(s_.targets) == 1 and isinstance(s_.targets[0], ast.Subscript) and \
+                        isinstance(s_.targets[0].value, ast.Name) and s_.targets[0].value.id == D and is_key(s_.targets[0].slice):
+                    v = ev(s_.value)
+                    st['present'], st['val'] = True, v
+                elif isinstance(s_, ast.AugAssign) and isinstance(s_.op, ast.Add) and isinstance(s_.target, ast.Subscript) and \
+                        isinstance(s_.target.value, ast.Name) and s_.target.value.id == D and is_key(s_.target.slice):
+                    if not st['present']:
+                        raise Unknown('+= on an absent key')
+                    st['val'] = st['val'] + ev(s_.value)
+                elif isinstance(s_, ast.Expr) and isinstance(s_.value, ast.Call):
+                    c_ = s_.value
+                    if isinstance(c_.func, ast.Attribute) and norm(c_.func.value) == D and c_.func.attr == 'setdefault' and \
+                            len(c_.args) == 2 and is_key(c_.args[0]):
+                        if not st['present']:
+                            st['present'], st['val'] = True, ev(c_.args[1])
+                    else:
+                        ev(c_)
+                else:
+                    raise Unknown(norm(s_)[:50])
+        block(loop.body)
+        return st
+    try:
+        a, b = run(False), run(True)
+    except Unknown as ex:
+        raise AnalysisError(f'OpGraphEdge.{fi.name}: dict accumulation with a step outside the recognised vocabulary: {ex}')
+    ok_a = a['present'] and a['val'] == Counter({'c': 1})
+    ok_b = b['present'] and b['val'] == Counter({'c': 1, 'd': 1})
+    show = lambda st: ' + '.join(sorted(st['val'].elements())) if st['present'] and st['val'] else ('nothing' if not st['present'] else '0')
+    det = '' if ok_a and ok_b else f'new id: stored {show(a)} (expected c); id present with d: stored {show(b)} (expected c + d)'
+    # the receiver's own entries must be the start of the accumulation when the function adds to an existing edge
+    if fi.name == 'add' and norm(init[0].value) != 'dict(self.opics)':
+        return False, 'the accumulation does not start from the entries the edge already has', init[0]
+    return ok_a and ok_b, det, loop
+
+
+def rule_R6(chk, repo, rid='C16.R6', q='opgraph.OpGraphEdge.add', declare=True):
     """OpGraphEdge.add is the sum of two coefficient maps: per incoming pair (i, c) the coefficient c enters the list of
     the receiving edge exactly once on every path (added to the entry with the same operator id, or appended).  The
     constructor (q = OpGraphEdge.__init__) does the same with the pairs it is given."""
     fi = repo.func(q)
     what = 'OpGraphEdge.add' if fi.name == 'add' else f'OpGraphEdge.{fi.name}'
-    chk.rule(rid, f'edge addition is a sum of coefficient maps: inside {what}, on every path through one iteration '
+    if declare:
+      chk.rule(rid, f'edge addition is a sum of coefficient maps: inside {what}, on every path through one iteration '
                   'of the loop over the incoming (id, coefficient) pairs the coefficient enters the receiving list '
                   'exactly once (path-partitioned counting through the search loop, its break and its else clause); a match '
                   'removes the old entry before the sum is re-inserted; the matching test compares operator ids')
     other = fi.params[1]
     srcs = (f'{other}.opics',) if fi.name == 'add' else tuple(p for p in fi.params if 'opic' in p) or (fi.params[-1],)
     loops = [s for s in fi.node.body if isinstance(s, ast.For) and norm(s.iter) in srcs]
+    dres = _dict_accumulation(fi, loops)
+    if dres is not None:
+        ok, det, node = dres
+        chk.ob(rid, where(repo, fi, node), f'{what}: every incoming (id, coefficient) pair adds its coefficient to what is stored under '
+               f'the same id - both when the id is new and when it is already present - and the result is the sorted list of the '
+               f'accumulated pairs', ok, det, key=f'{rid}|{fi.name}|dict-accumulation')
+        return 1
     if len(loops) != 1 or not (isinstance(loops[0].target, ast.Tuple) and len(loops[0].target.elts) == 2 and
                                all(isinstance(x, ast.Name) for x in loops[0].target.elts)):
         # a read-modify-write of the accumulator through a comprehension: `acc.update([(i, acc.get(i, 0) + c) for i, c in
